@@ -18,7 +18,7 @@ PROPS = {
                  "--csv` (+ text rendering for the tree depth) and `balance -v` run as subprocesses; returns/weights compared with the exact model after rounding to the printed digits (1-2 units).",
         "note": "Trusted: Lean kernel; axioms propext, Classical.choice, Quot.sound; float64 vs exact arithmetic bounded only by the per-case tolerance comparison; `Commodity.IsCurrency` is never "
                 "set by the CLI (pickTargets returns the annotation's list); sequential pipeline semantics (C19); yaml/regexp/cobra; sibling order under the weighted sort is compared as a set "
-                "and checked for monotonicity (float ties). Known findings: returns-commodity-filter-counts-filtered-flows, returns-meaningless-when-start-value-plus-inflow-vanishes; repaired: returns-last-folds-earlier-periods (32cd4f9).",
+                "and checked for monotonicity (float ties). Known findings: returns-commodity-filter-counts-filtered-flows, returns-meaningless-when-start-value-plus-inflow-vanishes, returns-meaningless-when-start-value-is-rounding-residue; repaired: returns-last-folds-earlier-periods (32cd4f9).",
         "rule": "streams portfolio (lifecycle journals over 3-800 days with re-pricing on later and otherwise empty days, x window from/to incl. period ends on days without directives, "
                 "six intervals, --last, account/commodity filters, universe files with nested classes, -m mappings with level 0-3 and suffix, -a), external (constant prices, no annotations: "
                 "every return must be 0), noflow (all transactions on the first day, then only price changes: return = end/start-1 from the balance totals), malformed (lifecycle mutations, "
@@ -28,7 +28,7 @@ PROPS = {
         "assumptions": ["exact rational arithmetic in place of float64 (outputs compared after rounding to the printed digits with 1-2 units tolerance)",
                         "C20_zero_period_when_only_external_flows: no --commodity, V0+inflow != 0 on the days of the period (both are points where the clause fails on the code: known findings); C20_ratio_period_without_flows: non-zero start value on every day of the period",
                         "C20_command_values_are_valued_balance: both commands succeed; same -v/--account/--commodity, no -m/--remap on the balance, no --from of the balance after the first transaction; D a column of the balance report (pipeline-level form: same list of days, days up to D inside the balance window or before the first booking)"],
-        "trusted": ["known findings: returns-commodity-filter-counts-filtered-flows, returns-meaningless-when-start-value-plus-inflow-vanishes"],
+        "trusted": ["known findings: returns-commodity-filter-counts-filtered-flows, returns-meaningless-when-start-value-plus-inflow-vanishes, returns-meaningless-when-start-value-is-rounding-residue"],
     },
     "C16": {
         "lean": ["Knut.Properties.C16"],
